@@ -140,7 +140,7 @@ static int fileGet(MPT_INTERFACE(convertable) *conv, MPT_TYPE(type) type, void *
 		}
 		if (!ret) {
 			d->type = -1;
-			return 0;
+			return MPT_ERROR(BadValue);
 		}
 		if (ret < 0) {
 			return MPT_ERROR(BadValue);
@@ -152,7 +152,7 @@ static int fileGet(MPT_INTERFACE(convertable) *conv, MPT_TYPE(type) type, void *
 		return MPT_ENUM(TypeFilePtr);
 	}
 	else if (d->type < 0) {
-		return 0;
+		return MPT_ERROR(MissingData);
 	}
 	if (!(converter = mpt_data_converter(d->type))) {
 		return MPT_ERROR(BadType);
